@@ -76,6 +76,31 @@ def run(ch, build):
             for mu in muts[i:i + 40]:
                 scn["steps"].append({"op": "cmd", "conn": "session", "cmd": c, "script": [mu, "ok"], "mutation": mu})
             scns.append(scn)
+    # a forged reply as the LAST datagram of a command: after an authentic node-busy / timeout code (or straight away) the
+    # forgery arrives, and then the command ends - its retry policy gives up, or its context expires while nothing more
+    # arrives.  Whatever the call returns, it is not the forged value
+    last = []
+    for k, su in enumerate(hist.SUITES if not ch.quick() else rng.sample(hist.SUITES, 3)):
+        for f in ("plain", "noauth", "emptysig", "wrongkey", "wrongsid", "v15none", "badpad"):
+            for pre in (["busy"], ["c3", "busy"], []):
+                c = rng.choice(cmds_fixed)
+                op = {"op": "open", "user": "admin", "password": b"secret".hex(), "priv": 4, "lookup": True, "suites": [list(su)]}
+                last.append({"bmc": conn.default_bmc(seed=150 + k, suites=[[100, su[0], su[1], su[2]]]), "timeout_ms": 40, "backoff_max_retries": len(pre) or 1,
+                             "forgery": f, "steps": [op, {"op": "cmd", "conn": "session", "cmd": c, "script": pre + ["forge:" + f] * (2 - len(pre) if not pre else 1), "cancel_ms": 3000}]})
+                last.append({"bmc": conn.default_bmc(seed=150 + k, suites=[[100, su[0], su[1], su[2]]]), "timeout_ms": 40, "forgery": f,
+                             "steps": [op, {"op": "cmd", "conn": "session", "cmd": c, "script": pre + ["forge:" + f] + ["silence"] * 4, "ctx_ms": 100}]})
+    if ch.quick():
+        last = rng.sample(last, 40)
+    for scn, out in zip(last, conn.run_scenarios(last)):
+        st, res = scn["steps"][1], out["steps"][1]
+        desc = {"kind": "c04", "conn": "session", "cmd": st["cmd"]["name"], "forgery": scn["forgery"], "family": "forgery-last"}
+        ch.note_case("c04-forgery-last", "%s|%s|%s" % (scn["forgery"], st["script"], scn["bmc"]["suites"]))
+        if res.get("panic"):
+            ch.violation(dict(desc, kind="panic"), {"scenario": scn, "panic": res["panic"]})
+        elif res["err"] == "nil" and ("a5a5a5" in (res.get("rsp") or "") or res["code"] == 0):
+            # the only normal-code reply in these histories is the forged one (the BMC's own were temporary codes)
+            ch.violation(desc, {"scenario": scn, "returned": {"code": res["code"], "err": res["err"], "rsp": res.get("rsp")},
+                                "what": "the command ended without an authentic final response, yet returned a result (the forged reply's)"})
     outs = conn.run_scenarios(scns)
     hist.replay(ch, scns, outs, (hook,), "c04")
     pend = ch.extra.pop("_c04", [])
